@@ -841,7 +841,7 @@ func (vc *VC) localCells(st *State) map[string]*ssa.Alloc {
 	best := map[string]*ssa.Alloc{}
 	for a := range st.cells {
 		n := a.Comment
-		if n == "" || strings.Contains(n, "$") {
+		if n == "" || strings.Contains(n, "$") || vc.inlineAllocs[a] {
 			continue
 		}
 		// several cells can share a name (shadowing, the hidden rangeindex of each loop): the one allocated last wins
